@@ -334,6 +334,12 @@ func (t *largeHuffCodeTable) encodeLongCodes(ctx *dynamicHeaderReader, codeListL
 			}
 		}
 
+		// unassigned codes below this prefix must be invalid lookups, not
+		// entries of a previous table
+		for x := longCodeLookupLength; x < longCodeLookupLength+uint32(1<<(maxLen-litLenLookupBits)); x++ {
+			t.longCodeLookup[x] = 0
+		}
+
 		for j := 0; j < int(tempCodeLength); j++ {
 			sym1Index := uint32(tempCodeList[j])
 			sym1 := indexToSym(sym1Index)
